@@ -1122,13 +1122,36 @@ func repairLax(doc string) (fixed string, nums, ctrls int) {
 	return sb.String(), nums, ctrls
 }
 
+// nestingDepth is the deepest bracket nesting of doc, string contents skipped (wide documents are not deep).
+func nestingDepth(doc string) int {
+	depth, deepest := 0, 0
+	inStr := false
+	for i := 0; i < len(doc); i++ {
+		switch c := doc[i]; {
+		case inStr && c == '\\':
+			i++
+		case c == '"':
+			inStr = !inStr
+		case inStr:
+		case c == '[' || c == '{':
+			depth++
+			if depth > deepest {
+				deepest = depth
+			}
+		case c == ']' || c == '}':
+			depth--
+		}
+	}
+	return deepest
+}
+
 func checkDoc(sub string) func(DocCase) error {
 	return func(c DocCase) error {
 		doc := c.doc()
 		if len(doc) > 1<<20 {
 			return fmt.Errorf("malformed case: document too long")
 		}
-		if strings.Count(doc, "[")+strings.Count(doc, "{") > 2*maxRefDepth {
+		if nestingDepth(doc) > maxRefDepth {
 			vk.S.Class("excluded:too-deep")
 			return nil
 		}
